@@ -36,6 +36,19 @@ class Clause:
             self._ast = fn
         return self._ast
 
+    @classmethod
+    def from_source(cls, name, src, kind, module=None, aux=False, props=None, note=""):
+        """clause whose text is produced by an oracle (E obligations); evaluated symbolically, and natively through exec"""
+        import textwrap as _tw
+        tree = ast.parse(_tw.dedent(src))
+        fn = tree.body[0]
+        ns = {}
+        c = cls(name, None, kind, aux=aux, note=note, props=props)
+        c._ast = fn
+        c._src = src
+        c.module = module
+        return c
+
     @property
     def params(self):
         return [a.arg for a in self.ast.args.args]
